@@ -22,13 +22,20 @@ class Capture:
         self.calls.append(("choice", a, size, replace, None if p is None else np.array(p, dtype=float)))
         return 0
 
+    def draw(self, scale, size):
+        # a recognisable "sample" reaching far into both tails (a draw is a draw: the helper must hand it on untouched)
+        n = int(np.prod(size)) if size is not None else 1
+        v = np.array([(-1) ** j * scale * (0.37 + 13.0 * j) for j in range(n)], dtype=float)
+        self.last = v.reshape(size) if size is not None else float(v[0])
+        return self.last
+
     def normal(self, loc=0.0, scale=1.0, size=None):
         self.calls.append(("normal", loc, scale, size))
-        return np.zeros(size)
+        return self.draw(scale, size)
 
     def laplace(self, loc=0.0, scale=1.0, size=None):
         self.calls.append(("laplace", loc, scale, size))
-        return np.zeros(size)
+        return self.draw(scale, size)
 
 
 class StubModel:
@@ -267,12 +274,16 @@ def noise_helpers(ctx, mech_mod, rng):
             if not math.isclose(g1, (2.0 if bounded else 1.0) * unb, rel_tol=1e-12):
                 bad.append("gaussian_noise_scale under bounded=%s is %r, unbounded %r" % (bounded, g1, unb))
             scale, size = rng.choice([0.3, 2.0, 41.5]), rng.choice([1, 4, 7])
-            M.gaussian_noise(scale, size)
+            out = M.gaussian_noise(scale, size)
             if cap.calls[-1] != ("normal", 0, scale, size):
                 bad.append("gaussian_noise(%r, %r) called the sampler with %r" % (scale, size, cap.calls[-1]))
-            M.laplace_noise(scale, size)
+            elif not np.array_equal(np.asarray(out), np.asarray(cap.last)):
+                bad.append("gaussian_noise(%r, %r) returns %s, the sampler drew %s" % (scale, size, np.asarray(out).tolist(), np.asarray(cap.last).tolist()))
+            out = M.laplace_noise(scale, size)
             if cap.calls[-1] != ("laplace", 0, scale, size):
                 bad.append("laplace_noise(%r, %r) called the sampler with %r" % (scale, size, cap.calls[-1]))
+            elif not np.array_equal(np.asarray(out), np.asarray(cap.last)):
+                bad.append("laplace_noise(%r, %r) returns %s, the sampler drew %s" % (scale, size, np.asarray(out).tolist(), np.asarray(cap.last).tolist()))
             if bad:
                 ctx.violation("noise helpers: " + "; ".join(bad), {"bounded": bounded, "s": s, "eps": eps, "delta": delta}, {"kind": "noise"})
 
@@ -284,9 +295,10 @@ GEM_CFG = ("CONSTANTS\n  MaxN = %d\n  QMax = 3\n  DMax = 2\n  Ts <- MCTs\nSPECIF
 
 
 def beyond_c20(ctx, mech_mod, rng, thorough):
-    """permute_and_flip and the generalised exponential mechanism: not part of C20's statement (another law by design / a score
-    transformation in front of the exponential mechanism), specified in PermuteFlip.tla and GenEM.tla and bound to the code in the
-    same two directions. A disagreement here is reported as a deviation from those models, never as a violation of C20."""
+    """permute_and_flip has, by design, another law than the one C20 states: it is specified in PermuteFlip.tla and bound to the
+    code in both directions, and a disagreement is reported as a deviation from that model, never as a violation of C20.
+    The generalised exponential mechanism IS the exponential mechanism (sensitivity 1) on the scores of GenEM.tla, so its sampling
+    law falls under C20: a disagreement is a violation."""
     import os
     from fractions import Fraction
     n = 4 if thorough else 3
@@ -383,7 +395,9 @@ def beyond_c20(ctx, mech_mod, rng, thorough):
         ctx.case(json.dumps(["gem", e["q"], e["d"], e["t"], eps]), nontrivial=len(q) >= 2)
         if bad:
             stats["gem_bad"] += 1
-            ctx.deviation("generalised exponential mechanism differs from GenEM.tla: " + "; ".join(bad[:2]), {"q": e["q"], "d": e["d"], "t": e["t"], "eps": eps})
+            ctx.violation("generalised exponential mechanism differs from GenEM.tla (candidate i must be drawn with probability proportional to "
+                          "exp(eps * s_i / 2) for the published scores s at the caller's t): " + "; ".join(bad[:2]),
+                          {"q": e["q"], "d": e["d"], "t": e["t"], "eps": eps}, {"kind": "gem"})
     ctx.extra["beyond_c20"] = stats
 
 
